@@ -81,7 +81,14 @@ func init() {
 		}
 		return Pred("an existing key", func(r Reply) bool { return r.K == KBulk && keys[r.S] })
 	})
-	reg("dbsize", 1, 1, func(m *Model, s *Session, a []string) Reply { return Int(int64(len(m.DBs[s.DB]))) })
+	reg("dbsize", 1, 1, func(m *Model, s *Session, a []string) Reply {
+		n := int64(len(m.DBs[s.DB]))
+		if m.Lazy == 0 {
+			return Int(n)
+		}
+		hi := n + int64(m.Lazy)
+		return Pred("dbsize in ["+itoa(n)+","+itoa(hi)+"] (expired keys may still be counted)", func(r Reply) bool { return r.K == KInt && r.I >= n && r.I <= hi })
+	})
 	reg("expire", 3, 4, func(m *Model, s *Session, a []string) Reply { return m.expire(s, a, 1000, false) })
 	reg("pexpire", 3, 4, func(m *Model, s *Session, a []string) Reply { return m.expire(s, a, 1, false) })
 	reg("expireat", 3, 4, func(m *Model, s *Session, a []string) Reply { return m.expire(s, a, 1000, true) })
@@ -257,6 +264,7 @@ func (m *Model) expire(s *Session, a []string, unit int64, abs bool) Reply {
 	}
 	if when <= m.Now {
 		m.del(s.DB, a[1])
+		m.Lazy++
 		return Int(1)
 	}
 	o.Exp = when
